@@ -406,8 +406,9 @@ def check(case, rec):
         kw = {} if auth else {"new_shape": S}
         nid, nshape = list(ids), (list(ashape) if auth else None)
         fn = lambda i, c, p: S - 1 - c
-        if sel[1] % 3 == 0 and depth == 0:
+        if sel[1] % 3 == 0 and depth == 0 and len(t.getRoot().coords) > 0:
             # documented parameters: a new id for the updated rank, and a new shape where the map needs one
+            # (an empty root is "nothing to do" for Fiber.updateCoords, its attributes included: not asked for)
             kw["new_rank_id"] = "Q"
             nid[0] = "Q"
             if sel[2] % 2:
